@@ -233,6 +233,8 @@ type NodeSpec struct {
 	Startup  []corev1.Taint
 	NodeOnly []corev1.Taint // taints present on the Node object only (ephemeral taints kubelet / cloud controllers add)
 	NotReady bool
+	// ReadyUnknown: the Ready condition is Unknown (kubelet unreachable) instead of True/False
+	ReadyUnknown bool
 	Created  time.Time
 	TGP      *time.Duration
 	Annot    map[string]string
@@ -374,6 +376,9 @@ func (w *World) BuildNode(s NodeSpec) (*v1.NodeClaim, *corev1.Node) {
 		ready := corev1.ConditionTrue
 		if s.NotReady {
 			ready = corev1.ConditionFalse
+		}
+		if s.ReadyUnknown {
+			ready = corev1.ConditionUnknown
 		}
 		node.Status.Conditions = []corev1.NodeCondition{{Type: corev1.NodeReady, Status: ready, LastTransitionTime: metaTime(created)}}
 		if s.Deleting && s.Pool != "" {
